@@ -23,6 +23,12 @@ BUILTIN_METHOD_NAMES = {
 }
 
 
+STR_RESULT_METHODS = {
+    'split', 'rsplit', 'splitlines', 'strip', 'lstrip', 'rstrip', 'lower', 'upper', 'format',
+    'join', 'encode', 'decode', 'partition', 'rpartition', 'readline', 'readlines', 'read',
+    'group', 'groups', 'title', 'capitalize', 'casefold', 'zfill', 'ljust', 'rjust',
+    'expandtabs', 'translate', 'swapcase', 'center'}
+
 TOTAL_CONSUMERS = {'list', 'tuple', 'sorted', 'set', 'frozenset', 'sum', 'any', 'all', 'max',
                    'min', 'dict', 'len'}
 
@@ -927,11 +933,41 @@ class CallMixin(object):
 
     def maybe_pathlike(self, recv, name):
         """A mutating method name on a value that may be a pathlib path / file."""
-        for x in walk(recv):
-            if isinstance(x, (Call, ExtRef)):
-                q = x.fn if isinstance(x, Call) else x.qualname
-                if q.startswith('pathlib') or q in ('open', 'io.open'):
+        # only the spine the value is made of counts (receiver, container, alternatives):
+        # a call *argument* that mentions open() says nothing about the result's type,
+        # and the result of a str method / input() is a str whatever it was called on
+        todo, seen = [recv], set()
+        while todo:
+            x = todo.pop()
+            if id(x) in seen:
+                continue
+            seen.add(id(x))
+            if isinstance(x, Call):
+                if x.fn in ('input', 'raw_input', 'str', 'repr', 'os.path.join'):
+                    continue
+                if x.fn.startswith('pathlib') or x.fn in ('open', 'io.open'):
                     return True
+                continue
+            if isinstance(x, ExtRef):
+                if x.qualname.startswith('pathlib') or x.qualname in ('open', 'io.open'):
+                    return True
+                continue
+            if isinstance(x, MCall):
+                if x.name in STR_RESULT_METHODS:
+                    continue
+                todo.append(x.recv)
+            elif isinstance(x, (Elem, Index)):
+                todo.append(x.container)
+            elif isinstance(x, (Sub, Attr)):
+                todo.append(x.base)
+            elif isinstance(x, Phi):
+                todo.extend(alts(x))
+            elif isinstance(x, IfT):
+                todo.extend([x.then, x.orelse])
+            elif isinstance(x, (Const, Fmt, Bin, Cmp, BoolT, Un, TupleT, ListObj, DictObj)):
+                continue
+            else:
+                todo.extend(c for c in children(x))
         return name in ('unlink', 'rmdir', 'symlink_to', 'write_text', 'write_bytes',
                         'hardlink_to', 'touch')
 
